@@ -11,7 +11,7 @@ from .interp import Spec, PyRaise
 
 class Harness:
     def __init__(self, name, fn, spec=None, functions=(), covers=(), max_paths=20000, expect_fail=False,
-                 timeout_ms=10000, finalize=None, retry_unknown=True):
+                 timeout_ms=10000, finalize=None, retry_unknown=True, ematching_only=False):
         self.name = name
         self.fn = fn                    # fn(vm) ; uses vm.ctx
         self.spec = spec or Spec()
@@ -21,6 +21,7 @@ class Harness:
         self.expect_fail = expect_fail  # canary
         self.timeout_ms = timeout_ms
         self.retry_unknown = retry_unknown
+        self.ematching_only = ematching_only
         self.finalize = finalize        # fn(list of finished ctxs) -> list of Check  (obligations that span paths)
 
 
@@ -81,7 +82,7 @@ def run_harness(h: Harness) -> HarnessResult:
         ctx.nonvacuous = ctx._check() != z3.unsat
 
     try:
-        done, stats = explore(body, max_paths=h.max_paths, timeout_ms=h.timeout_ms, retry_unknown=h.retry_unknown)
+        done, stats = explore(body, max_paths=h.max_paths, timeout_ms=h.timeout_ms, retry_unknown=h.retry_unknown, ematching_only=h.ematching_only)
         for c in done:
             res.checks.extend(c.checks)
             res.covers |= c.covers
